@@ -113,8 +113,10 @@ def apply_call(comp, call):
             return e
     GuardedLog.armed = True
     try:
-        if kind == 'add':
-            comp.add_jumper(bib=benc(arg), order=BIBS.index(arg) + 1)
+        if kind == 'addnb':
+            comp.add_jumper(order=9)                       # no bib given: the default bib '0'
+        elif kind == 'add':
+            comp.add_jumper(bib=benc(arg), order=(BIBS.index(arg) + 1) if arg in BIBS else 9)
         elif kind == 'bar':
             comp.set_bar_height(enc(arg))
         else:
@@ -128,8 +130,10 @@ def apply_call(comp, call):
 
 def log_entry(call):
     kind, arg = call
+    if kind == 'addnb':
+        return ('add_jumper', dict(order=9))
     if kind == 'add':
-        return ('add_jumper', dict(bib=benc(arg), order=BIBS.index(arg) + 1))
+        return ('add_jumper', dict(bib=benc(arg), order=(BIBS.index(arg) + 1) if arg in BIBS else 9))
     if kind == 'bar':
         return ('set_bar_height', enc(arg))
     return (LETTER[kind], benc(arg))
@@ -204,14 +208,19 @@ def enc(k):
 
 
 # bib codec: the alphabet names the athletes 'A'..'G'; what is passed to the API can be another type (observables are decoded back)
+NOBIB = False       # alphabet also registers athletes without a bib
 BIBCODEC = None     # (name, {name: api value}, {api value or its str(): name})
 _INT_BIBS = {'A': 81, 'B': 53, 'C': 7, 'D': 2197, 'E': 2878, 'F': 10, 'G': 9}
 
 
 def set_bibs(name):
-    global BIBCODEC
+    global BIBCODEC, NOBIB
+    NOBIB = False
     if name is None:
         BIBCODEC = None
+    elif name == 'default':
+        BIBCODEC = None
+        NOBIB = True
     elif name == 'int':
         d = {}
         for k, v in _INT_BIBS.items():
@@ -288,6 +297,11 @@ def alphabet(model, bounds):
         A.append(('add', BIBS[n]))
     if n:
         A.append(('add', model.order[0]))
+    if NOBIB:
+        # registration without a bib (default bib '0') and with the explicit bib '0', new or duplicate
+        if '0' in model.order or n < bounds.athletes:
+            A.append(('addnb', '0'))
+            A.append(('add', '0'))
     nh = len(model.heights)
     if not model.heights:
         cand = [FIRST_HEIGHT, 0, -1]
@@ -341,7 +355,7 @@ def universal_accept_ok(model, call):
     """U4 'accepted => allowed' on the cards alone, phase-independent part (valid in the fringe too).
     Returns an explanation string if the acceptance is impossible under any reading, else None."""
     kind, arg = call
-    if kind == 'add':
+    if kind in ('add', 'addnb'):
         if model.heights:
             return 'athlete added after the first bar height'
         if arg in model.cards:
